@@ -4,8 +4,8 @@ from vlib import common as C, coapgen as G
 
 # clean (exit 0, no KNOWN-FINDING) at seeds 1..5 on the tree with the Hop-Limit fix (branch ws-P04).
 MANIFEST = {
-    "text": "Proved in Lean for all messages and all three framings: decode(encode m) = m for every well-formed message (udp, tcp with four length forms, ws), the 13/14 header scheme is a bijection, any insertion order yields ascending options with insertion order kept among equals (about the specification S); M's serialised bytes = Spec.encode and the decoder's view of a built PDU is the abstract message; build_view: every script of API calls (add_token / add_option in ANY order, i.e. including the coap_insert_option path with its six next-option header rewrite cases / insert / update / remove / update_token / add_data, any capacity, refusals at any step) run by the transcription M of libcoap's builders never leaves the buffer and ends on the PDU representing the abstract message reached by the specification's steps with M's return codes; refused_is_noop: every refused call of every kind leaves the PDU (bytes, max_opt, payload offset, hence the view) exactly as it was. M is tied to the C code by differential runs: I vs M vs S on generated API call scripts, per-call buffer digests (a refused call changing the buffer is a violation on its own), bytes compared with Spec.encode.",
-    "note": 'Trusted: Lean kernel (+ propext, Classical.choice, Quot.sound), T1 extractor, harness/generators, the hand transcription M (checked against the compiled code on the cases run only; no model-branch coverage is reported). Four libcoap defects fixed on the way (token length cast, over-long option value, refused add_token leaving the token length, refused Proxy-Uri/Proxy-Scheme leaving its implicit Hop-Limit); none open. The theorems hold for PDUs representing an abstract message (everything reachable from coap_pdu_init or a successful parse through the API), option numbers ≤ 65535.',
+    "text": "Proved in Lean for all messages and all three framings: decode(encode m) = m for every well-formed message (udp, tcp with four length forms, ws), the 13/14 header scheme is a bijection, any insertion order yields ascending options with insertion order kept among equals (about the specification S); M's serialised bytes = Spec.encode and the decoder's view of a built PDU is the abstract message; build_view: every script of API calls (add_token / add_option in ANY order, i.e. including the coap_insert_option path with its six next-option header rewrite cases / insert / update / remove / update_token / add_data, any capacity, refusals at any step) run by the transcription M of libcoap's builders never leaves the buffer and ends on the PDU representing the abstract message reached by the specification's steps with M's return codes; refused_is_noop: every refused call of every kind leaves the PDU (bytes, max_opt, payload offset, hence the view) exactly as it was. M is tied to the C code by differential runs: I vs M vs S on generated API call scripts, per-call buffer digests (a refused call changing the buffer is a violation on its own), bytes compared with Spec.encode. WebSocket write side (coap_ws_write / coap_ws_close): for every payload below 2^63 bytes, either role and any masking key the bytes built are exactly one RFC 6455 frame (FIN, RSV 0, binary opcode, MASK iff client, minimal length form, payload XOR key cyclically; Close frame: opcode 8 + status code); the written bytes cut into any chunks and read by C05's reader of the opposite role (S_ws and the model of coap_ws_read) give back the CoAP messages in order; and under ANY pattern of partial lower-layer writes the caller's loop puts exactly these frames on the wire (never a frame started inside another). Tied to the code by running the real coap_ws_write / coap_ws_close with a scripted PRNG and a scripted partial-write lower layer against M and an independent RFC 6455 encoder in the judge.",
+    "note": 'Trusted: Lean kernel (+ propext, Classical.choice, Quot.sound), T1 extractor, harness/generators, the hand transcription M (checked against the compiled code on the cases run only; no model-branch coverage is reported). Five libcoap defects fixed on the way (token length cast, over-long option value, refused add_token leaving the token length, refused Proxy-Uri/Proxy-Scheme leaving its implicit Hop-Limit, coap_ws_write dropping the rest of a partly written frame); none open. The read-back theorems are for payloads up to the 1472-byte buffer of the reader (C05 D19) and CoAP messages of at least 2 bytes (D21). The theorems hold for PDUs representing an abstract message (everything reachable from coap_pdu_init or a successful parse through the API), option numbers ≤ 65535.',
     "design_ref": "design/C01.md, DESIGN.md §4 C01",
 }
 
@@ -17,28 +17,46 @@ REQUIRED_THEOREMS = ["ext_roundtrip", "opt_header_unique", "decode_encode", "enc
                      # M side
                      "M_encode_eq_S", "view_of_built", "build_view", "build_view_fresh", "build_view_partial",
                      "accepted_step_is_spec", "refused_when", "refused_is_noop", "refused_calls_are_skippable",
-                     "refused_proxy_leaves_nothing"]
+                     "refused_proxy_leaves_nothing",
+                     # WebSocket write side (coap_ws_write / coap_ws_close)
+                     "ws_frame_wellformed", "ws_close_frame_wellformed", "ws_write_whole", "ws_close_then_silent", "ws_frames_wellformed", "ws_spec_reads_written",
+                     "ws_write_read_roundtrip", "ws_payload_roundtrip", "ws_write_sequence_roundtrip",
+                     "ws_partial_writes_one_frame", "ws_partial_writes_sequence", "ws_send_receive"]
 NOT_PROVED = []
 RULE = ("API call scripts (coap_pdu_init; add_token / add_option / insert_option / update_option / remove_option / "
         "update_token / add_data in any order) for udp/tcp/ws: token length classes 0, 1-8, 9-12, 13, 14-268, 269, "
         "270-65804, 65805; option multisets over 0..65535 with deltas and value lengths on both sides of 12/13, "
         "268/269, 65804/65805; shuffled insertion order; repetitions of non-repeatable options; Proxy-Uri/-Scheme in "
         "requests; payloads sized to reach all four TCP length forms; maximum sizes that make calls fail; "
-        "non-trivial = distinct script with at least one accepted call")
+        "non-trivial = distinct script with at least one accepted call; "
+        "wsw lines (10 %): client / server role, 1-4 coap_ws_write calls per line (payload lengths 0..6, 124..128, 255/256, "
+        "1471..1473, 65534..65537, 70000, random; masking keys 00000000, ffffffff, 80000000, 000000ff, random), "
+        "lower-layer scripts taking everything / nothing / a part of the header / the header exactly / a part of the "
+        "payload at every key offset / failing, coap_ws_close with status codes 0, 1000, 1002, 1009, 65535, random")
 TRUSTED_BASE = ["Lean 4.33 kernel; axioms allowed: propext, Classical.choice, Quot.sound (audited per theorem each run)",
                 "T1 extractor extract/repeatable.c and its renderer",
-                "harness/codec.c (ops build/edit) + generators + string comparison",
+                "harness/codec.c (ops build/edit/wsw) + generators + string comparison; the judge's own RFC 6455 encoder",
                 "M (CoapVerif/Model/Build.lean) is a hand transcription of the PDU building/editing functions; checked "
-                "against the compiled code only on the cases run"]
+                "against the compiled code only on the cases run",
+                "M_ws-write (CoapVerif/Model/WsWriter.lean) is a hand transcription of coap_ws_write / coap_ws_mask_data / "
+                "the Close frame of coap_ws_close; the reader side used by the round-trip theorems is C05's "
+                "(Model/WsReader.lean, Spec/StreamWs.lean)"]
 ASSUMPTIONS = ["capacity is modelled by max_size only: after a successful coap_pdu_check_resize the writes have room; "
                "failure of realloc itself is C18's subject",
                "pdu->session == NULL (coap_update_token does not re-encode the header itself)",
-               "compiled Lean definitions agree with the kernel's reading of them"]
+               "compiled Lean definitions agree with the kernel's reading of them",
+               "coap_ws_write: session->ws and the frame buffer can be allocated; coap_prng_lkd returns 4 bytes; the lower "
+               "layer's l_write returns < 0 or a count of at most what it was offered; size_t has 64 bits"]
 SPEC_DECISIONS = ["D2 Empty message with token/options/payload is outside the property (still run, I vs M only)",
                   "D3 type/mid are CON/0 on reliable transports",
                   "D13 Hop-Limit=16 may accompany a Proxy-Uri/Proxy-Scheme added to a request without Hop-Limit",
                   "D14 any call may be refused; a refused call leaves the abstract message unchanged",
-                  "D15 WebSocket sender sets Len = 0"]
+                  "D15 WebSocket sender sets Len = 0",
+                  "D20 WebSocket frames: the client masks, the server does not (RFC 6455 5.1); a CoAP message is one "
+                  "unfragmented binary frame (RFC 8323 4.1)",
+                  "D21 a zero-length coap_ws_write whose frame header the lower layer does not take at once is outside "
+                  "the property (a CoAP message has at least 2 bytes; the return value 0 cannot tell 'nothing taken' "
+                  "from 'done'); such lines are still run, I vs M only"]
 
 
 def extract(ctx):
@@ -155,12 +173,61 @@ def script_size(ops):
     return n
 
 
+# ---- WebSocket write side: `wsw` lines (harness/codec.c do_wsw, Driver/WsWriter.lean)
+WS_LENS = [0, 1, 2, 3, 4, 5, 6, 13, 14, 124, 125, 126, 127, 128, 255, 256, 1000, 1471, 1472, 1473]
+WS_BIG = [65534, 65535, 65536, 65537, 70000]
+WS_KEYS = ["00000000", "ffffffff", "01020304", "80000000", "000000ff"]
+
+
+def ws_hdr_len(role, n):
+    return 2 + (0 if n <= 125 else 2 if n <= 65535 else 8) + (4 if role == "c" else 0)
+
+
+def gen_accs(rng, role, n):
+    """acceptance script of the lower layer for one item whose frame has ws_hdr_len + n bytes"""
+    c = rng.random()
+    if c < 0.45:
+        return "a"
+    h = ws_hdr_len(role, n)
+    out = []
+    for _ in range(rng.choice([1, 1, 2, 3, 5])):
+        d = rng.random()
+        if d < 0.15: k = 0
+        elif d < 0.45: k = rng.randint(1, h)                       # inside / just at the end of the header
+        elif d < 0.55: k = h + rng.choice([0, 1, 2, 3, 4, 5])      # key offsets 0..3 of the continuation
+        elif d < 0.60: k = -1
+        else: k = rng.randint(1, h + n + 2)
+        out.append(str(k))
+    if rng.random() < 0.8:
+        out.append("a")
+    return ",".join(out)
+
+
+def gen_wsw(rng, big):
+    role = rng.choice("cs")
+    items = []
+    for _ in range(rng.choice([1, 1, 2, 2, 3, 4])):
+        key = rng.choice(WS_KEYS) if rng.random() < 0.5 else "%08x" % rng.getrandbits(32)
+        if rng.random() < 0.08:
+            items.append("C%s:%d:%s" % (key, rng.choice([0, 1000, 1002, 1009, 65535, rng.randint(0, 65535)]),
+                                        rng.choice(["a", "a", "a", str(rng.randint(0, 9)), "-1"])))
+            continue
+        c = rng.random()
+        if big and c < 0.5: n = rng.choice(WS_BIG)
+        elif c < 0.6: n = rng.choice(WS_LENS)
+        else: n = rng.randint(0, 300)
+        items.append("W%s:%s:%s" % (key, val(rng, n), gen_accs(rng, role, n)))
+    return "wsw %s %s" % (role, ";".join(items))
+
+
 def generate(ctx, escalate=False):
     rng = ctx.rng
     n = 200000 if ctx.thorough() else 20000
     if escalate:
         n *= 3
     out = []
+    for i in range(n // 10):
+        out.append(gen_wsw(rng, rng.random() < 0.03))
     for i in range(n):
         proto = rng.choice(["udp", "udp", "tcp", "tcp", "ws", "ws", "dtls", "tls", "wss"])     # D17: secured = plain framing
         big = rng.random() < (0.05 if ctx.thorough() else 0.02)
@@ -280,7 +347,101 @@ def d3(proto, dump):
     return " ".join(["t=0" if x.startswith("t=") else "m=0" if x.startswith("m=") else x for x in w])
 
 
+# ---- judge of the `wsw` lines: RFC 6455 §5.2 written down once more, independently of the C code and of Lean
+def ws_val(v):
+    if v == "-":
+        return b""
+    if v.startswith("*"):
+        _, n, seed = v.split("*")
+        n, seed = int(n), int(seed)
+        return bytes((seed + 7 * i + 13 * (i // 256)) & 255 for i in range(n))
+    return bytes.fromhex(v)
+
+
+def ws_frame(op, masked, key, payload):
+    n = len(payload)
+    m = 0x80 if masked else 0
+    if n <= 125: h = bytes([0x80 | op, m | n])
+    elif n <= 65535: h = bytes([0x80 | op, m | 126, n >> 8, n & 255])
+    else: h = bytes([0x80 | op, m | 127]) + n.to_bytes(8, "big")
+    if masked:
+        return h + key, bytes(b ^ key[i & 3] for i, b in enumerate(payload))
+    return h, payload
+
+
+def fnv32(b):
+    h = 2166136261
+    for x in b:
+        h = ((h ^ x) * 16777619) & 0xffffffff
+    return h
+
+
+def ws_dg(b):
+    if len(b) == 0: return "-"
+    if len(b) <= 48: return b.hex()
+    return "#%d.%08x.%s..%s" % (len(b), fnv32(b), b[:8].hex(), b[-8:].hex())
+
+
+def judge_wsw(ctx, c):
+    i, m, s = c["impl"], c["model"], c["spec"]
+    w = c["input"].split()
+    if i is not None and i.startswith("crash"):
+        return ("spec", "coap_ws_write / coap_ws_close aborts the process: " + i[:200])
+    if i == "bad-op" or i is None or not i.startswith("up0="):
+        return None if i == m else ("tie", "implementation %s but model M says %s" % (short(i), short(m)))
+    f = dict(x.split("=", 1) for x in i.split(" "))
+    if f["up0"] != "0":
+        return ("spec", "a write before the WebSocket layer is up did not return 0 without writing: up0=" + f["up0"])
+    masked = w[1] == "c"
+    items = w[2].split(";")
+    rets = f["rets"].split(",")
+    has_err = any(a == "-1" for it in items for a in it.split(":")[2].split(","))
+    # D21: a zero-length write whose header is not taken at once is outside the property (0 = "nothing taken" = "done")
+    empty_partial = any(it[0] == "W" and it.split(":")[1] == "-" and it.split(":")[2] != "a" for it in items)
+    if not has_err and not empty_partial and len(rets) == len(items):
+        # the frames the property demands, in order; nothing after the first Close
+        frames, closed = [], False
+        for it in items:
+            key = bytes.fromhex(it[1:9])
+            body = it.split(":")[1]
+            if closed:
+                frames.append((it[0], b"", b"", b""))
+            elif it[0] == "W":
+                frames.append(("W",) + ws_frame(2, masked, key, ws_val(body)) + (ws_val(body),))
+            else:
+                r = int(body) or 1000
+                frames.append(("C",) + ws_frame(8, masked, key, bytes([r >> 8, r & 255])) + (bytes([r >> 8, r & 255]),))
+                closed = True
+        stream = b"".join(h + p for _, h, p, _ in frames)
+        taken, start = 0, 0
+        for (kind, h, p, _), r, it in zip(frames, rets, items):
+            calls = [x.split("/") for x in r.split("+")]
+            taken += sum(int(x[2]) for x in calls if x[2] != "-")
+            if kind == "W":
+                claimed = sum(int(x[0]) for x in calls)
+                on_wire = max(0, min(len(p), taken - start - len(h)))
+                if claimed != on_wire:
+                    return ("spec", "coap_ws_write reported %d payload bytes of %s taken, the lower layer has %d of them "
+                                    "(rets %s)" % (claimed, short(it), on_wire, r))
+            start += len(h) + len(p)
+        want = ws_dg(stream[:taken])
+        if f["wire"] != want:
+            return ("spec", "bytes handed to the lower layer %s are not the first %d bytes of the RFC 6455 frames of the "
+                            "messages %s" % (f["wire"], taken, want))
+        if s is not None and taken == len(stream):
+            fs = ",".join("F0.%d.%s.%s.%s" % (2 if k == "W" else 8, "m" if masked else "u",
+                                              h[-4:].hex() if masked else "-", ws_dg(app))
+                          for k, h, p, app in frames if h)
+            if s != "frames=" + (fs or "-"):
+                return ("tie", "Spec.WsFrame.decodeAll on M's bytes says %s, expected %s" % (short(s), short(fs)))
+    if i != m:
+        return ("tie", "implementation %s but model M says %s" % (short(i), short(m)))
+    return None
+
+
 def judge(ctx, c):
+    if c["input"].startswith("wsw "):
+        return judge_wsw(ctx, c)
     i, m, s = c["impl"], c["model"], c["spec"]
     proto = c["input"].split()[1]
     if i is not None and i.startswith("crash"):
@@ -322,11 +483,16 @@ def short(s):
 
 
 def nontrivial(c):
+    if c["input"].startswith("wsw "):
+        return c["impl"] is not None and " wire=" in c["impl"] and not c["impl"].endswith("wire=-")
     return "1" in rc_pattern(fields(c["impl"]).get("steps"))
 
 
 def classify(c):
     w = c["input"].split()
+    if w[0] == "wsw":
+        part = any(a not in ("a",) for it in w[2].split(";") for a in it.split(":")[2].split(","))
+        return "wsw:%s:%s" % ("client" if w[1] == "c" else "server", "partial-writes" if part else "whole-writes")
     f = fields(c["impl"])
     pat = rc_pattern(f.get("steps"))
     return "%s:%s:%s" % (w[1], "limited" if w[2] != "0" else "unlimited", "some-refused" if "0" in pat else "all-accepted")
